@@ -83,6 +83,30 @@ def stored_coords(levels, vals, dims, ordering):
     return out
 
 
+def stored_prefixes(levels, dims, ordering):
+    """Per level, the set of stored level-order prefixes (a prefix counts as stored even when nothing is stored
+    below it: a compressed coordinate whose lower segment is empty)."""
+    order = len(dims)
+    out = [set() for _ in range(order)]
+
+    def rec(l, prefix, pos):
+        if l == order:
+            return
+        d = dims[ordering[l]]
+        if levels[l] is None:
+            for i in range(d):
+                out[l].add(prefix + (i,))
+                rec(l + 1, prefix + (i,), pos * d + i)
+        else:
+            p, c = levels[l]
+            for q in range(p[pos], p[pos + 1]):
+                out[l].add(prefix + (c[q],))
+                rec(l + 1, prefix + (c[q],), q)
+
+    rec(0, (), 0)
+    return out
+
+
 def levels_from_dok(dok, dims, modes, ordering):
     """Build the canonical level structure storing exactly the coordinates in ``dok`` (plus what
     dense levels force).  Independent of tensora.  modes: sequence of 'd'/'s' in level order."""
